@@ -1136,6 +1136,8 @@ class ASTLimitClause(ASTBase):
 
     def source(self, sql_type: SQLType = SQLType.DEFAULT) -> str:
         """返回语法节点的 SQL 源码"""
+        if self.offset is None:
+            return f"LIMIT {self.limit}"
         return f"LIMIT {self.offset}, {self.limit}"
 
 
